@@ -166,6 +166,9 @@ func worker(w *pool.W, arg json.RawMessage) {
 				continue
 			}
 			fk := id + "\x01" + cl + "\x01" + o.PanicKey
+			if cl == "first-step" {
+				fk += "\x01" + c.Pre
+			}
 			f := fails[fk]
 			sz := caseSize(c)
 			if f == nil {
@@ -312,9 +315,13 @@ func main() {
 		for i := range r.Fails {
 			f := r.Fails[i]
 			normCase(f.Case)
-			if f.Clause == "crash" {
+			if f.Clause == "crash" || f.Clause == "first-step" {
 				k := f.PanicKey
-				if k == "" {
+				if f.Clause == "first-step" {
+					// the first call of a two-step case already went wrong: one key per first step,
+					// whatever the second method is
+					k = "after-prior-call:first-step(" + f.Case.Pre + ")"
+				} else if k == "" {
 					k = "crash:" + f.Cell
 				}
 				if old := crashes[k]; old == nil || f.Size < old.Size {
@@ -359,6 +366,23 @@ func main() {
 		sort.Strings(cl)
 		fclause[id] = strings.Join(cl, "+")
 	}
+	// a two-step cell that fails exactly like its one-step counterpart is the same defect: fold it in,
+	// so that "after-prior-call." keys only name defects that need an already-changed receiver
+	for id, cf := range failing {
+		if !strings.HasPrefix(id, "arr2:") {
+			continue
+		}
+		twin := "arr:" + strings.TrimPrefix(id, "arr2:")
+		if tw := failing[twin]; tw != nil && fclause[twin] == fclause[id] {
+			tw.n += cf.n
+			cellCount[twin] += cellCount[id]
+			for fs := range cf.fine {
+				tw.fine[fs] = true
+			}
+			delete(failing, id)
+			delete(fclause, id)
+		}
+	}
 	keys := widen(all, fclause)
 	byKey := map[string]int64{}
 	fineByKey := map[string][]string{}
@@ -384,7 +408,7 @@ func main() {
 			continue
 		}
 		byKey[k] += f.N
-		c.Fail(k, "crash", f.Size, f.Case, f.Detail)
+		c.Fail(k, f.Clause, f.Size, f.Case, f.Detail)
 	}
 
 	// ---- evidence
